@@ -9,14 +9,15 @@ from harness.sched import runner
 
 # property -> scenario mix (name, weight, job options) and the model-checking configs that carry its invariants
 PROPS = {
-    "C01": dict(mix=[("plain", 1.0, {})], mc=["MC_base"]),
+    "C01": dict(mix=[("plain", 1.0, {})], mc=["MC_base", "MC_runahead:MC_runahead_live"]),
     "C02": dict(mix=[("plain", 0.5, {"features": {"retries": "always"}}),
                      ("plain", 0.3, {"features": {"retries": "always"}, "mode": "any"}), ("faults", 0.2, {})], mc=["MC_retry"]),
     "C03": dict(mix=[("plain", 0.35, {}), ("plain", 0.35, {"mode": "any"}),
-                     ("cmds", 0.3, {"kinds": ["reload"], "features": {"queues": "always"}, "stopreq": False})], mc=["MC_base"]),
-    "C04": dict(mix=[("plain", 1.0, {"features": {"max_fcp": 5, "future": True}})], mc=["MC_runahead"]),
+                     ("cmds", 0.3, {"kinds": ["reload"], "features": {"queues": "always"}, "stopreq": False})],
+                mc=["MC_base", "MC_msgs:MC_msgs_live"]),
+    "C04": dict(mix=[("plain", 1.0, {"features": {"max_fcp": 5, "future": True}})], mc=["MC_runahead", "MC_runahead:MC_runahead_live"]),
     "C05": dict(mix=[("plain", 0.6, {"features": {"queues": "always", "max_tasks": 5}}),
-                     ("cmds", 0.4, {"features": {"queues": "always"}, "kinds": ["trigger"]})], mc=["MC_queue"]),
+                     ("cmds", 0.4, {"features": {"queues": "always"}, "kinds": ["trigger"]})], mc=["MC_queue", "MC_base"]),
     "C07": dict(mix=[("plain", 0.6, {"features": {"future": True}}), ("stopcmds", 0.4, {})], mc=["MC_base"]),
     "C09": dict(mix=[("plain", 0.4, {}), ("faults", 0.6, {"features": {"retries": "always"}})], mc=["MC_msgs"]),
     "C10": dict(mix=[("faults", 0.5, {}), ("cmds", 0.5, {"kinds": ["trigger"], "dups": True,
@@ -40,9 +41,10 @@ PROPS = {
                 mc=["MC_base"]),
     "C19": dict(mix=[("restart", 1.0, {})], mc=["MC_restart"]),
     "C20": dict(mix=[("crash", 1.0, {})], mc=["MC_crash"]),
-    "C31": dict(mix=[("plain", 1.0, {"features": {"sequential": "always"}})], mc=["MC_seq"]),
+    "C31": dict(mix=[("plain", 1.0, {"features": {"sequential": "always"}})], mc=["MC_seq", "MC_base"]),
 }
 N_RUNS = {"quick": 96, "thorough": 1500}
+SLOW_MC = {"MC_queue", "MC_seq"}     # > 30 s: thorough tier only
 
 def _jobs(ctx, cfg, n):
     jobs = []
@@ -134,10 +136,14 @@ def model_check(ctx, cfg):
     """Model-check the design-level configurations that carry this property's invariants."""
     mcdir = os.path.join(tlc.SPEC_DIR, "mc")
     done = []
-    for name in cfg.get("mc", []):
-        mod = os.path.join(mcdir, name + ".tla")
-        cfgp = os.path.join(mcdir, name + (".cfg" if ctx.quick or not os.path.exists(os.path.join(mcdir, name + "_thorough.cfg")) else "_thorough.cfg"))
-        if not os.path.exists(mod):
+    for spec in cfg.get("mc", []):
+        modname, _, cfgname = spec.partition(":")
+        name = cfgname or modname
+        mod = os.path.join(mcdir, modname + ".tla")
+        cfgp = os.path.join(mcdir, name + ".cfg")
+        if not os.path.exists(mod) or not os.path.exists(cfgp):
+            continue
+        if ctx.quick and name in SLOW_MC:
             continue
         res = tlc.run_tlc(mod, cfgp, workers=16, timeout=600 if ctx.quick else 3000, heap="8g")
         if not res.ok:
